@@ -51,6 +51,11 @@ func (u Universe) Resolve(base, ref string) (Loc, interface{}, error) {
 		return Loc{}, nil, &resolveErr{"bad-ref", err.Error()}
 	}
 	doc, ok := u[du]
+	if !ok && strings.HasPrefix(du, "file:") && strings.Contains(du, "?") {
+		// the query of a local file location is irrelevant (C11)
+		du = du[:strings.Index(du, "?")]
+		doc, ok = u[du]
+	}
 	if !ok {
 		return Loc{}, nil, &resolveErr{"no-document", du}
 	}
